@@ -11,6 +11,10 @@ sys.path.insert(0, os.path.join(VERIF, "lib"))
 sys.path.insert(0, VERIF)
 
 
+# checks that have been run end-to-end on the unchanged tree by the integrator and are claimed
+INTEGRATED = {"C01", "C08", "C09", "C10", "C03", "C04", "C05", "C06", "C07", "C12", "C15", "C16", "C18", "C19", "C20"}
+
+
 def collect():
     """every checks/cNN.py that defines META = dict(level, technique, text, note, design_ref) is registered"""
     out = {}
@@ -19,7 +23,7 @@ def collect():
             continue
         mod = importlib.import_module("checks." + fn[:-3])
         meta = getattr(mod, "META", None)
-        if meta and meta.get("registered", True):
+        if meta and ("C" + fn[1:-3]) in INTEGRATED:
             out["C" + fn[1:-3]] = (meta["level"], meta["technique"], meta["text"], meta["note"], meta["design_ref"])
     return out
 
